@@ -227,7 +227,8 @@ class ObjectStream(Generic[T]):
             add_md = False
             if found_md is None:
                 add_md = True
-            elif found_md != v:
+            elif found_md != v or type(found_md) is not type(v):
+                # (1, True and 1.0 compare equal but are not the same value)
                 logging.getLogger(__name__).info(
                     f'Overwriting metadata "{k}" from its old value of "{found_md}" to "{v}"'
                 )
